@@ -19,7 +19,8 @@ EXE = dict(exe="driver_pyval", src="DriverPyVal.lean")
 TEE, FN = 8, 9
 RAISES = (ValueError, TypeError, ZeroDivisionError, KeyError)
 
-INPUTS = [0, 1, 2, "ab", "", None, [], [1], [0, 1, 2], [2, 1, 0, 1], [[1], [0, 2]], [1, "a", 2], (0, 1), {"k": 1, "j": 0}, [[], [1]], {1, 2}, [None, 0], "cabd", ["ab", "a"], [[1], 1], ["", None]]
+INPUTS = [0, 1, 2, "ab", "", None, [], [1], [0, 1, 2], [2, 1, 0, 1], [[1], [0, 2]], [1, "a", 2], (0, 1), {"k": 1, "j": 0}, [[], [1]], {1, 2}, [None, 0], "cabd", ["ab", "a"], [[1], 1], ["", None],
+          [1, 1, 2, 2], [1, 1.0, True], [0, False, 1]]  # runs of equal neighbours; neighbours that are equal but of different types
 
 
 def leaves(nprobes):
